@@ -173,6 +173,9 @@ def eval_isolated(query):
         node = w.master
         if query.get("path"):
             node = w.master.derive_path(index_list=list(query["path"]))
+        if query["op"] == "scan":
+            ns = node.generate_children(interval=tuple(query["interval"]))
+            return {"n": len(ns), "first": canon_node(ns[0]), "last": canon_node(ns[-1])}
         if query["op"] == "children":
             return [canon_node(c) for c in node.generate_children(interval=tuple(query["interval"]))]
         return value_op(w, node, query)
